@@ -45,4 +45,26 @@ def run_case(rng, tier, case):
             if mon_balance_raw(case, ev.snap, ev.ret.x):
                 nt = True
     case.event('optimize', r.rec.counts['optimize']); case.event('extract', r.rec.counts['extract'])
+    if rng.random() < 0.25:
+        # "every solution returned": the same Portfolio object is set up and solved again after the user changed a factor on an asset object
+        # (transport efficiency, commodity factors) - the second solution must balance with the NEW factors
+        P = r.built.portfolio
+        cands = [(a, x) for a, x in zip(P.assets, spec['assets']) if type(a).__name__ in ('Transport', 'ExtendedTransport', 'MultiCommodityContract')]
+        if cands:
+            a, x = cands[int(rng.integers(len(cands)))]
+            if type(a).__name__ == 'MultiCommodityContract':
+                fc = [1.] + [gen.pick(rng, [0.3, 1.2, -0.7, 2.5]) for _ in a.nodes[1:]]
+                a.factors_commodities = list(fc); x['factors_commodities'] = list(fc)
+            else:
+                a.efficiency = x['efficiency'] = gen.pick(rng, [v for v in (1., 0.9, 0.8, 0.5) if v != x.get('efficiency')])
+            case.feature('second_run_after_factor_change')
+            r2 = flow.run_portfolio(spec, split=split, built=r.built)
+            if r2.ok and r2.solved:
+                if mon_balance_output(case, P, r2.out, clause='balance.output_second_run'):
+                    nt = True
+                for ev in r2.rec.of('optimize'):
+                    if ev.snap is not None and ev.ret is not None and not isinstance(ev.ret, str):
+                        mon_balance_raw(case, ev.snap, ev.ret.x)
+            elif not r2.ok and r2.stage in ('optimize', 'extract'):
+                case.check('balance.second_run_works', False, error=flow.describe_error(r2))
     case.nontrivial = bool(nt)
